@@ -60,3 +60,9 @@ impl<B> From<WindowUpdate> for frame::Frame<B> {
         frame::Frame::WindowUpdate(src)
     }
 }
+
+#[cfg(feature = "verif")]
+#[allow(missing_docs, dead_code, unused_imports)]
+pub(crate) mod verif_h {
+    include!(concat!(env!("H2_VERIF_DIR"), "/harness/frame/window_update.rs"));
+}
